@@ -162,10 +162,10 @@ pub fn std_u32_from_le_bytes(a: [u8; 4]) -> (r: u32)
 // ================================ spec vocabulary ================================================
 
 // partitions are numbered exactly 1..=n (established by Topic::add_partitions / delete_persisted_partitions,
-// n <= MAX_PARTITIONS_COUNT = 100_000 on the server) and each knows its own number
+// n <= MAX_PARTITIONS_COUNT, the server's constant, extracted) and each knows its own number
 pub open spec fn pwf(t: &Topic) -> bool {
     &&& t.partitions@.dom().finite()
-    &&& t.partitions@.len() <= 100_000
+    &&& t.partitions@.len() <= MAX_PARTITIONS_COUNT
     &&& forall|id: u32| #[trigger] t.partitions@.contains_key(id) <==> 1 <= id <= t.partitions@.len()
     &&& forall|id: u32| #[trigger] t.partitions@.contains_key(id) ==> t.partitions@[id].partition_id == id
 }
